@@ -65,9 +65,22 @@ def regen_expr_tables(status):
     _one('expr_tables', 'TallyVerif/Gen/ExprTables.lean', 'TallyVerif.Gen.ExprTables', produce, status)
 
 
+def regen_fmt_tables(status):
+    from .translate import fmt_tables
+
+    def tables():
+        a = common.read(os.path.join(common.SRC, 'format_parser.py'))
+        b = common.read(os.path.join(common.SRC, 'parsers.py'))
+        text, t = fmt_tables.translate(a, b)
+        return text, {'input_sha': common.sha(a + b), 'tables': {k: len(v) for k, v in t.items()}}
+
+    _one('fmt_tables', 'TallyVerif/Gen/FmtTables.lean', 'TallyVerif.Gen.FmtTables', tables, status)
+
+
 def regen_all():
     status = {}
     regen_classification(status)
     regen_specificity(status)
     regen_expr_tables(status)
+    regen_fmt_tables(status)
     return status
